@@ -34,10 +34,61 @@ def tasks(tier, params):
     out.append(('NULL', {'code': 10, 'K': K}))
     out.append(('UNKNOWN', {'code': 65280, 'K': K}))
     out.append(('overrun', {'code': 1, 'K': K, 'overrun': True}))
+    # C01.alloc on record level: three minimal records of the types that own collections; the elements requested through
+    # Vec::with_capacity while parsing must not exceed the message length
+    for name, code, rd in (('TXT', 16, [0]), ('NSEC', 47, [0]), ('SVCB', 64, [0, 0, 0]), ('HTTPS', 65, [0, 0, 0])):
+        out.append(('alloc3.' + name, {'code': code, 'K': 0, 'alloc3': rd}))
+    return out
+
+
+def run_alloc3(prog, tid, params):
+    f_parse = [f for t, f in prog.methods[('Packet', 'parse')] if t is None][0]
+    rd = params['alloc3']
+    msg = be_bytes(sym('id', 'u16')) + [mk('u8', 0)] * 2 + be_bytes(mk('u16', 0)) + be_bytes(mk('u16', 3)) + [mk('u8', 0)] * 4
+    for k in range(3):
+        msg += [mk('u8', 0)] + be_bytes(mk('u16', params['code'])) + be_bytes(mk('u16', 1)) + be_bytes(sym('ttl%d' % k, 'u32')) + \
+            be_bytes(mk('u16', len(rd))) + [mk('u8', b) for b in rd]
+    stats = {}
+    ok = [0]
+
+    def run(I):
+        return I.call_function(f_parse, [X.byte_buffer(I, msg)], {})
+
+    def on_path(res):
+        I = res.interp
+        if res.kind == 'panic':
+            m = res.ctx.model()
+            return {'status': 'violation', 'role': 'panic', 'detail': '%s: panic %s' % (tid, res.msg),
+                    'cex': {'entry': 'packet_parse', 'bytes': X.model_bytes(m, msg), 'expect': {'outcome': 'panic'}}}
+        if res.kind != 'return':
+            return None
+        if res.value.var == 'Ok':
+            ok[0] += 1
+        total = mk('usize', 0)
+        for ev in I.events:
+            if ev[0] == 'alloc':
+                total = I.binop('Add', total, ev[2])
+        if res.ctx.check(z3.UGT(total.z(), len(msg))):
+            m = res.ctx.solver.model()
+            return {'status': 'violation', 'role': 'alloc', 'detail': '%s: Vec::with_capacity requests while parsing a %d-byte message of three '
+                    'minimal records sum to more elements than the message has bytes (%s)' % (tid, len(msg), [e[1] for e in I.events if e[0] == 'alloc'][:6]),
+                    'cex': {'entry': 'packet_parse_alloc', 'bytes': X.model_bytes(m, msg), 'expect': {'outcome': 'alloc'}}}
+        return None
+    v = X.explore(prog, run, on_path, loop_bound=64, stats=stats, timeout_ms=60000, hooks=HOOKS)
+    out = {'paths': stats.get('paths', 0), 'queries': stats.get('queries', 0), 'solver_s': stats.get('solver_s', 0.0),
+           'outcomes': stats.get('outcomes', {}), 'functions': stats.get('functions', set()), 'covers': {'ok': ok[0]},
+           'covers_witnessed': 1 if ok[0] else 0}
+    if v is not None:
+        out.update(v)
+    elif not ok[0]:
+        out['status'] = 'inconclusive'
+        out['detail'] = 'vacuous: the three-record message is not accepted'
     return out
 
 
 def run_task(prog, tid, params, tier):
+    if 'alloc3' in params:
+        return run_alloc3(prog, tid, params)
     f_parse = [f for t, f in prog.methods[('Packet', 'parse')] if t is None][0]
     code, K = params['code'], params['K']
     agg = {'paths': 0, 'queries': 0, 'solver_s': 0.0, 'outcomes': {}, 'functions': set(), 'covers': {'ok': 0, 'err': 0}}
